@@ -185,7 +185,12 @@ class FileResolver:
                 # Glob results are filtered like traversal results: not inside an excluded
                 # directory, not matched by the tool ignore file.
                 rel = path.relative_to(root)
-                if any(self._exclude_spec.match_file(part + "/") for part in rel.parts[:-1]):
+                dirs = rel.parts[:-1]
+                if any(
+                    self._exclude_spec.match_file(part + "/")
+                    or self._exclude_spec.match_file("/".join(dirs[: k + 1]) + "/")
+                    for k, part in enumerate(dirs)
+                ):
                     continue
                 if tool_ignore and tool_ignore.match_file(rel.as_posix()):
                     continue
